@@ -301,7 +301,8 @@ def check(run: Run) -> None:
     with run.obligation("C18.e", "K1", "node evaluate_impl: scheduled_now is computed before user code; advance iff it fired, "
                         "else re-arm iff scheduled (shared with C02.g)"):
         fa = R.fn(run, NODE, "evaluate_impl")
-        R.k1(run, "C18.e", fa, c02.node_eval_roles(), c02.node_eval_spec, role_calls=c02.NODE_EVAL_CALLS,
+        spec_p, calls_p, feas_p = c02.node_eval_projection({"eval", "rearm"})
+        R.k1(run, "C18.e", fa, c02.node_eval_roles(), spec_p, role_calls=calls_p, feasible=feas_p,
              may_throw_calls=("EVAL",), what="node evaluate gate + scheduler re-arm")
         fl = R.flow(run, fa)
         snow = R.store_is(r"scheduled_now", None)
